@@ -12,8 +12,8 @@ EnvelopeRules(b) ==
   /\ r.ok /\ WFCose("sign1", b)
   /\ LET it == r.item  pm == ProtMap(it.xs[1]).ps  um == it.xs[2].ps IN
      /\ HasLabel(pm, LblHashAlg) /\ IsIntItem(ValueOf(pm, LblHashAlg))
-     /\ HasLabel(pm, LblPreimageCT) => (IsUint(ValueOf(pm, LblPreimageCT)) \/ IsTstr(ValueOf(pm, LblPreimageCT)))
-     /\ HasLabel(pm, LblLocation) => IsTstr(ValueOf(pm, LblLocation))
+     /\ (HasLabel(pm, LblPreimageCT) => (IsUint(ValueOf(pm, LblPreimageCT)) \/ IsTstr(ValueOf(pm, LblPreimageCT))))
+     /\ (HasLabel(pm, LblLocation) => IsTstr(ValueOf(pm, LblLocation)))
      /\ ~HasLabel(um, LblHashAlg) /\ ~HasLabel(um, LblPreimageCT) /\ ~HasLabel(um, LblLocation)
      /\ ~HasLabel(pm, LblContentType) /\ ~HasLabel(um, LblContentType)
      /\ IsBstr(it.xs[3])
